@@ -99,7 +99,7 @@ pub fn run(args: &Args, rep: &mut Report) {
         if let Some(v) = &o.violation {
             let d = format!("[{} volume {}{}] {}", origin, label, if scfg.fail_writes { ", write-refusing device" } else { "" }, v.detail);
             rep.viol("C13", &format!("C13|{}", v.sig), &v.rule, &d, rj(&d));
-        } else if o.counters.total_dev_writes > 0 && o.counters.readonly_exceptions == 0 {
+        } else if o.counters.total_dev_writes > o.counters.fsinfo_dev_writes || (o.counters.fsinfo_dev_writes > 0 && o.counters.fsinfo_exception_armed == 0) {
             let d = format!("[{} volume {}] {} device writes were issued during a read-only session (including the monitors' own listings)", origin, label, o.counters.total_dev_writes);
             rep.viol("C13", "C13|writes-counted", "writes-counted", &d, rj(&d));
         }
